@@ -744,7 +744,13 @@ func ruleDRMDefaultDeny(c *eng.Ctx) {
 				}
 				if cal := call.Call.StaticCallee(); cal != nil && eng.InModule(cal) {
 					bad = append(bad, name+" at "+c.P.Pos(call.Pos()))
-				} else if strings.HasPrefix(name, "strings.") {
+				} else if strings.HasPrefix(name, "strings.") && name != "strings.ToLower" {
+					// the two exemptions and the content-file test may be inlined: their own constants are accepted
+					if len(call.Call.Args) > 1 {
+						if cs, ok := eng.ConstString(call.Call.Args[1]); ok && (drmContentSuffix[cs] || drmObfuscationWord[cs]) {
+							continue
+						}
+					}
 					bad = append(bad, name+" at "+c.P.Pos(call.Pos()))
 				}
 			}
